@@ -2,7 +2,8 @@
    Only theorem statements closed by `exact` (or a one-line combination), each followed by
    Print Assumptions; plus the non-vacuity examples and the refutation witness of F6. *)
 From Snax Require Import Base.Prelude Model.Tsl Model.C05Copy Proofs.TslProofs
-  Proofs.C05MemProofs Proofs.C05MainProofs Proofs.C05ExtraProofs Model.C05Dyn Proofs.C05DynProofs Proofs.C05DynCopyProofs.
+  Proofs.C05MemProofs Proofs.C05MainProofs Proofs.C05ExtraProofs Model.C05Dyn Proofs.C05DynProofs Proofs.C05DynCopyProofs
+  Proofs.C05AuditProofs.
 
 (* For all ranks, tile depths, shapes, static layouts with positive bounds and equal tile bounds,
    element sizes and offsets: under Safe_lccb, a destination layout that does not self-overlap and
@@ -51,17 +52,25 @@ Theorem C05_exec_is_bursts : forall ps pd c env m, exec ps pd c env m = run_burs
 Proof. exact exec_run_bursts. Qed.
 Print Assumptions C05_exec_is_bursts.
 
-(* the lowering does not fail on the domain of the theorem *)
+(* the lowering does not fail on the domain of the theorem, for rank >= 1.  Rank 0 (a layout without
+   dimensions) is excluded: get_total_size_op asserts there, and the model says None
+   (C05_lower_rank0); C05_copy_correct / C05_copy_footprint are vacuous at rank 0 for that reason. *)
 Theorem C05_lower_total :
   forall (src dst : layout) (el so do_ : Z),
     layout_okb src = true -> layout_okb dst = true -> equal_tile_bounds src dst = true ->
     safe_lccb src dst = true -> offset src = Some so -> offset dst = Some do_ ->
+    tstrides src <> [] ->
     exists c, lower src dst el (shape_of src) = Some c.
 Proof.
-  intros src dst el so do_ Hs Hd Hetb Hsafe Hso Hdo. apply layout_okb_ok in Hs, Hd.
-  destruct (lower_bursts src dst el so do_ Hs Hd Hetb Hsafe Hso Hdo) as [c [Hc _]]. exists c. exact Hc.
+  intros src dst el so do_ Hs Hd Hetb Hsafe Hso Hdo Hrank. apply layout_okb_ok in Hs, Hd.
+  destruct (lower_bursts src dst el so do_ Hs Hd Hetb Hsafe Hso Hdo) as [c [Hc _]]. exists c.
+  rewrite (lower_rank src dst el (shape_of src) (shape_of_rank src Hrank)). exact Hc.
 Qed.
 Print Assumptions C05_lower_total.
+
+Theorem C05_lower_rank0 : forall src dst el smd dmd, lower src dst el [] = None /\ lower_dyn src dst el [] smd dmd = None.
+Proof. intros. split; reflexivity. Qed.
+Print Assumptions C05_lower_rank0.
 
 (* the run-time lowering (dynamic dims / strides / offsets resolved on a descriptor, Model/C05Dyn.v)
    coincides with the static lowering on static layouts, whatever metadata is supplied: the theorems
@@ -88,7 +97,7 @@ Theorem C05_copy_dynamic_partial :
     let rd := resolve dst rshape in
     layout_okb rs = true -> layout_okb rd = true -> equal_tile_bounds rs rd = true ->
     safe_lccb rs rd = true -> 0 < el -> offset src = Some so -> offset dst = Some do_ ->
-    rshape = shape_of rs ->
+    rshape <> [] -> rshape = shape_of rs ->
     lccb src dst 1 = lccb rs rd 1 ->
     map (fun s => value_in s (lccb rs rd 1)) (all_strides src) =
     map (fun s => value_in s (lccb rs rd 1)) (all_strides rs) ->
@@ -98,9 +107,9 @@ Theorem C05_copy_dynamic_partial :
       forall (m : mem) (idx : list Z) (k : Z), In idx (row_major (shape_of rs)) -> 0 <= k < el ->
         run ps pd c m (pd + elem_addr rd el idx + k) = m (ps + elem_addr rs el idx + k).
 Proof.
-  intros src dst el so do_ rshape smd dmd rs rd Hs Hd Hetb Hsafe Hel Hso Hdo Hsh Hl Hv Hov.
+  intros src dst el so do_ rshape smd dmd rs rd Hs Hd Hetb Hsafe Hel Hso Hdo Hrank Hsh Hl Hv Hov.
   apply layout_okb_ok in Hs, Hd.
-  destruct (copy_dynamic_partial_sec src dst el so do_ rshape smd dmd Hs Hd Hetb Hsafe Hel Hso Hdo Hsh Hl Hv)
+  destruct (copy_dynamic_partial_sec src dst el so do_ rshape smd dmd Hs Hd Hetb Hsafe Hel Hso Hdo Hrank Hsh Hl Hv)
     as [c [Hc H]].
   exists c. split; [exact Hc|]. intros ps pd. apply H. exact (self_overlaps_inj rs rd Hd Hetb Hov).
 Qed.
@@ -112,12 +121,62 @@ Example C05_dynamic_nonvacuous :
   let dst := mkLayout [[(Some 8, None); (Some 1, Some 4)]] (Some 2) in
   let rs := resolve src [12] in let rd := resolve dst [12] in
   layout_okb rs = true /\ layout_okb rd = true /\ equal_tile_bounds rs rd = true /\ safe_lccb rs rd = true /\
-  [12] = shape_of rs /\ lccb src dst 1 = lccb rs rd 1 /\
+  [12] <> [] /\ [12] = shape_of rs /\ lccb src dst 1 = lccb rs rd 1 /\
   map (fun s => value_in s (lccb rs rd 1)) (all_strides src) = map (fun s => value_in s (lccb rs rd 1)) (all_strides rs) /\
   self_overlaps rd = false /\
   lower_dyn src dst 2 [12] None None = Some (CDma2 (0, []) (4, []) 8 8 16 3).
-Proof. repeat split; reflexivity. Qed.
+Proof. repeat split; try reflexivity. discriminate. Qed.
 Print Assumptions C05_dynamic_nonvacuous.
+
+(* ---- the dynamic finding classes F27-F29 (Model/C05Dyn.v; the search classifies failures with them) --- *)
+(* none of them holds on the domain of C05_copy_dynamic_partial: a failure there is never a known finding *)
+Theorem C05_dyn_classes_off_proved_region :
+  forall (src dst : layout) (rshape : list Z) (sh : list (option Z)),
+    layout_okb (resolve src rshape) = true -> layout_okb (resolve dst rshape) = true ->
+    lccb src dst 1 = lccb (resolve src rshape) (resolve dst rshape) 1 ->
+    dyn_no_anchor src = false /\ dyn_no_anchor dst = false /\
+    dyn_anchor_tie src = false /\ dyn_anchor_tie dst = false /\
+    dyn_in_block src dst = false /\ dyn_class sh (LTsl src) (LTsl dst) = 0.
+Proof.
+  intros src dst rshape sh Hs Hd. apply layout_okb_ok in Hs, Hd.
+  exact (dyn_classes_off_proved_region src dst rshape sh Hs Hd).
+Qed.
+Print Assumptions C05_dyn_classes_off_proved_region.
+
+(* ... nor on the domain of C05_copy_correct (static layouts) *)
+Theorem C05_dyn_classes_off_static :
+  forall (src dst : layout) (sh : list (option Z)),
+    layout_okb src = true -> layout_okb dst = true -> dyn_class sh (LTsl src) (LTsl dst) = 0.
+Proof.
+  intros src dst sh Hs Hd. apply layout_okb_ok in Hs, Hd. exact (dyn_classes_off_static src dst sh Hs Hd).
+Qed.
+Print Assumptions C05_dyn_classes_off_static.
+
+(* each class contains an input on which the model of the run-time lowering miscopies an element although
+   the run-time layouts satisfy every hypothesis of C05_copy_correct (witnesses of known/C05.json) *)
+Theorem C05_dyn_refuted_no_anchor :
+  exists sh msrc mdst el rshape smd dmd rs rd c idx ps pd,
+    dyn_no_anchor (to_tsl sh msrc mdst) = true /\ dyn_class sh msrc mdst = 1 /\
+    c = CDma2 (0, []) (0, []) 1 0 1 3 /\
+    model_miscopies sh msrc mdst el rshape smd dmd rs rd c idx ps pd.
+Proof. exact dyn_refuted_no_anchor. Qed.
+Print Assumptions C05_dyn_refuted_no_anchor.
+
+Theorem C05_dyn_refuted_anchor_tie :
+  exists sh msrc mdst el rshape smd dmd rs rd c idx ps pd,
+    dyn_anchor_tie (to_tsl sh msrc mdst) = true /\ dyn_class sh msrc mdst = 2 /\
+    c = CDma2 (0, []) (0, []) 4 1 1 2 /\
+    model_miscopies sh msrc mdst el rshape smd dmd rs rd c idx ps pd.
+Proof. exact dyn_refuted_anchor_tie. Qed.
+Print Assumptions C05_dyn_refuted_anchor_tie.
+
+Theorem C05_dyn_refuted_in_block :
+  exists sh msrc mdst el rshape smd dmd rs rd c idx ps pd,
+    dyn_in_block (to_tsl sh msrc mdst) (to_tsl sh mdst msrc) = true /\ dyn_class sh msrc mdst = 3 /\
+    smd = Some ([9; 1], 3) /\ c = CDma1 (6, []) (0, []) 48 /\
+    model_miscopies sh msrc mdst el rshape smd dmd rs rd c idx ps pd.
+Proof. exact dyn_refuted_in_block. Qed.
+Print Assumptions C05_dyn_refuted_in_block.
 
 (* MatchSimpleCopy (both layouts identity): one 1-D transfer moves every row-major element *)
 Theorem C05_simple_copy_correct :
